@@ -296,6 +296,23 @@ theorem ofIntRNE_isF64 (n : Int) (hn : n.natAbs < 2 ^ 128) : IsF64 (F64.ofIntRNE
       rw [this]; exact h1
     split <;> omega
 
+/-- A non-zero integer converts to a non-zero float. -/
+theorem ofIntRNE_isZero (n : Int) (hn : n ≠ 0) : (F64.ofIntRNE n).isZero = false := by
+  unfold F64.ofIntRNE F64.roundNat
+  simp only []
+  have hN : n.natAbs ≠ 0 := Int.natAbs_ne_zero.mpr hn
+  generalize n.natAbs = N at *
+  by_cases h : bitLen N ≤ 53
+  · simp only [h, if_true, F64.isZero]
+    simpa using hN
+  · simp only [h, if_false, F64.isZero]
+    have h1 := two_pow_bitLen_le N hN
+    have hq : 2 ^ 52 ≤ N / 2 ^ (bitLen N - 53) := by
+      rw [Nat.le_div_iff_mul_le (Nat.two_pow_pos _), ← Nat.pow_add]
+      have : 52 + (bitLen N - 53) = bitLen N - 1 := by omega
+      rw [this]; exact h1
+    split <;> exact beq_eq_false_iff_ne.mpr (by omega)
+
 /-! ### T3: `fmod` is exact -/
 
 theorem fmod_fin_units (sa sb : Bool) (ma mb : Nat) (ea eb : Int)
